@@ -165,6 +165,23 @@ class ParseWalk(object):
         self.stack = next(iter(allocs))
         self.loops = [n for n in ast.walk(fn) if isinstance(n, (ast.While, ast.For))]
 
+    def token_term(self, st):
+        """the term the reader dispatches on in this iteration (what token_chars found tested against delimiters)"""
+        for c, p_, _ in st.conds:
+            f = logic.formula(c)
+            if not p_:
+                f = logic.neg(f)
+            if f[0] != 'atom':
+                continue
+            if f[1][0] == 'in' and ((f[1][2][0] == 'const' and isinstance(f[1][2][1], str) and f[1][2][1] and set(f[1][2][1]) <= set('()<>/\\|[]')) or
+                                    (f[1][2][0] in ('tuple', 'list', 'set') and f[1][2][1] and all(x[0] == 'const' and isinstance(x[1], str) and x[1] in tuple('()<>/\\|[]') for x in f[1][2][1]))):
+                return f[1][1]
+            if f[1][0] == 'eq':
+                consts = [x for x in f[1][1:] if x[0] == 'const' and isinstance(x[1], str) and x[1] in tuple('()<>/\\|[]')]
+                if len(consts) == 1 and st.conds and c is st.conds[0][0]:
+                    return [x for x in f[1][1:] if x is not consts[0]][0]
+        return None
+
     def token_chars(self, st, pol=True):
         """characters the token of the iteration is known to be among on this path (the first positive membership /
         equality test of one term against delimiter characters), or None.  The token is whatever term the reader
@@ -487,6 +504,25 @@ def r_associativity(mod, rep, R='R5.3'):
         return
     rep.check(n_functor >= 1 and n_simple >= 1, R, w, 'parse:closing:cases', 'both closing cases exist (redundant bracket / operand-slash-operand)',
               'closing cases: functor %d, redundant %d' % (n_functor, n_simple))
+    # the opening case: the bracket the printers write ("(") is pushed as the mark the closing cases ask for -- as a text, not
+    # as an atom -- and so are the slashes
+    marks = {'(': False, '/': False, '\\': False}
+    for st, o in pw.paths:
+        if o == 'raise' or not any(e[0] == 'loop-enter' for e in st.events):
+            continue
+        chars = pw.token_chars(st)
+        if not chars:
+            continue
+        i_exit = [i for i, e in enumerate(st.events) if e[0] == 'loop-exit']
+        seg = st.events[:i_exit[0]] if i_exit else st.events
+        pushed = [e[1][2][0] for e in seg if e[0] == 'call' and e[1][1] == A(stack, 'append')]
+        verbatim = len(pushed) == 1 and ((pushed[0][0] == 'sym' and pushed[0][1] == 'token') or pushed[0] == pw.token_term(st))
+        for ch in marks:
+            if ch in chars and verbatim:
+                marks[ch] = True
+    missing = sorted(ch for ch, ok_ in marks.items() if not ok_)
+    rep.check(not missing, R, w, 'parse:marks', 'an opening round bracket and the two slashes are pushed as they are read (the closing cases look for them)',
+              'the characters %s have no case that pushes them as read: the text the printers write for a functor does not read back' % missing)
     # end of input: one entry is returned as is, or exactly three are combined
     U = lambda k: ('unpack', stack, k)
     single = three = False
@@ -520,6 +556,16 @@ def r_atoms(mod, rep, R='R5.2'):
     pm = ParseWalk(mod)
     n = 0
     bad = []
+    TEXT = N(pm.text)
+
+    def as_read(t):
+        # a token as it stands: popped from the token list, or picked out of it by position (subscript / element / unpacking
+        # of something computed from the text) -- not the result of a call applied to it, and not a value written in the source
+        if t[0] == 'sym' and t[1] == 'token':
+            return True
+        if t[0] in ('sub', 'elem', 'unpack') or (t[0] == 'name'):
+            return any(x == TEXT or (x[0] == 'sym' and x[1] == 'token') for x in subterms(t)) or t[0] == 'name'
+        return False
     for st, o in pm.paths:
         if o == 'raise':
             continue
@@ -533,7 +579,7 @@ def r_atoms(mod, rep, R='R5.2'):
             args = list(v[2]) + [val for k, val in v[3] if k is not None]
             if len(args) >= 2:
                 f = args[1]
-                ok = f[0] == 'call' and f[1] == A(N('Feature'), 'parse') and len(f[2]) == 1 and not any(x[0] == 'const' for x in subterms(f[2][0]))
+                ok = f[0] == 'call' and f[1] == A(N('Feature'), 'parse') and len(f[2]) == 1 and as_read(f[2][0])
                 if not ok and f == ('call', N('UnaryFeature'), (), ()):
                     # "no feature" written out (the default of the field) on a path that read no feature text
                     ok = not any(e2[0] == 'call' and e2[1][1] == A(N('Feature'), 'parse') for e2 in st.events)
@@ -541,7 +587,7 @@ def r_atoms(mod, rep, R='R5.2'):
                     conds = '; '.join('%s%s' % ('' if pol else 'not ', show(c)[:50]) for c, pol, _ in st.conds[-2:])
                     bad.append('Atom(.., %s) under %s' % (show(f)[:50], conds))
             base = args[0] if args else None
-            if base is not None and any(x[0] == 'const' for x in subterms(base)):
+            if base is not None and not as_read(base):
                 bad.append('Atom(%s, ..)' % show(base)[:50])
     if not n:
         raise AnalysisError('%s: Category.parse: no path pushes an Atom' % REL)
